@@ -4,7 +4,7 @@ from __future__ import annotations
 import ast
 from fractions import Fraction
 
-from ..astu import U, walk_shallow, call_name, calls_in, kwarg, linform, lin_str, monomial, mono_str
+from ..astu import U, has, walk_shallow, call_name, calls_in, kwarg, linform, lin_str, monomial, mono_str
 from ..cfg import build, defs_of
 from ..core import AnalysisError, Mutant, Rule, Twin
 from ..idioms import subscript_stores, for_loops, target_names
@@ -206,6 +206,27 @@ def r5_total(ctx):
     ctx.check("viol = [r.net_stoich([wrt])[0] for r in rxns]" in t, a, "net-coefficient-of-species", "coefficients must be the net stoichiometry of the eliminated species", node=fn)
 
 
+def r6_common_multiple(ctx):
+    """rcd must be a common multiple of all coefficients: per prime the exponent is the running maximum over all of them"""
+    fn = ctx.func(CHEM, "Equilibrium.eliminate")
+    a = CHEM + ":Equilibrium.eliminate"
+    outer = [lp for lp in for_loops(fn) if U(lp.iter) == "viol"]
+    ok = len(outer) == 1
+    inner = for_loops(outer[0]) if ok else []
+    ok = ok and len(inner) == 1 and isinstance(inner[0].iter, ast.Call) and call_name(inner[0].iter) == "sympy.primefactors" and U(inner[0].iter.args[0]) == U(outer[0].target)
+    ctx.check(ok, a, "all-coefficients-all-primes", "the exponent table must be built from every prime factor of every coefficient", node=fn)
+    stores = subscript_stores(fn.body, "factors")
+    other = [c for c in calls_in(fn) if isinstance(c.func, ast.Attribute) and U(c.func.value) == "factors" and c.func.attr in ("update", "setdefault", "pop", "clear")]
+    good = bool(stores) and not other
+    for u in stores:
+        v = u.value
+        if not (u.kind == "=" and isinstance(v, ast.Call) and call_name(v) == "max" and len(v.args) == 2 and any(U(x) == "factors[%s]" % U(u.key) for x in v.args)):
+            good = False
+    ctx.check(good, a, "running-maximum", "each prime's exponent must be the running maximum `factors[f] = max(factors[f], ...)` over all coefficients; a later coefficient must not overwrite a larger "
+              "earlier requirement (rcd would no longer be a common multiple and rcd // v truncates): %s" % ([U(u.stmt) for u in stores] + [U(c) for c in other]), node=stores[0].stmt if stores else fn)
+    ctx.check(has(fn, "rcd = reduce(mul, (k ** v for k, v in factors.items()), 1)"), a, "product-over-all-primes", "rcd must be the product of prime ** exponent over the whole table", node=fn)
+
+
 def sweep_reduce(ctx):
     n = 0
     for m in ctx.repo.all_modules():
@@ -226,6 +247,7 @@ RULES = [
     Rule("C11-R3", r3_netted_add, 6, "netted addition and product of constants"),
     Rule("C11-R4", r4_forward_backward, 6, "kf/kb = K*c0^(nb-nf); backward reaction sides"),
     Rule("C11-R5", r5_total, 3, "eliminate total on its domain"),
+    Rule("C11-R6", r6_common_multiple, 3, "eliminate: running maximum of prime exponents over all coefficients"),
     Rule("C11-S1", sweep_reduce, 1, "package-wide reduce-without-initialiser sweep (notes)", tier="thorough"),
 ]
 
@@ -246,6 +268,9 @@ MUTANTS = [
 ]
 
 MUTANTS.append(Mutant("eliminate-reduce-no-init", [(CHEM, "rcd = reduce(mul, (k ** v for k, v in factors.items()), 1)", "rcd = reduce(mul, (k ** v for k, v in factors.items()))")], "C11-R5", "reduce-initialiser"))
+
+MUTANTS.append(Mutant("eliminate-drops-running-max", [(CHEM, "            for f in sympy.primefactors(v):\n                factors[f] = max(factors[f], sympy.Abs(v // f))", "            factors.update({f: sympy.Abs(v // f) for f in sympy.primefactors(v)})")], "C11-R6", "running-maximum"))
+MUTANTS.append(Mutant("eliminate-min", [(CHEM, "factors[f] = max(factors[f], sympy.Abs(v // f))", "factors[f] = min(factors[f], sympy.Abs(v // f))")], "C11-R6", "running-maximum"))
 
 TWINS = [
     Twin("kb-rewritten", [(CHEM, "kb = kf / (self.param * c0 ** (nb - nf))", "kb = kf / self.param / c0 ** (nb - nf)")]),
